@@ -288,6 +288,27 @@ for _pid, _t in ROUND4.items():
     CHECKS[_pid]['text'] += _t
 
 
+
+# fifth round
+ROUND5 = {'C01': ' List-valued fields carry 2-4 elements in caller-chosen orders.',
+          'C02': ' Responses composed from the message classes with every Result Status are held against the envelope rules as well.',
+          'C03': ' Key pairs made by CreateKeyPair with the policy name in the common and / or own templates.',
+          'C04': ' Set/Modify of every lifecycle attribute (dates, State) at every reached lifecycle state must leave the State alone.',
+          'C05': ' Readers of different KMIP versions at the same time must be answered byte for byte as when alone.',
+          'C06': ' AES-GCM through the server with reference values and negatives on every part of the tag and on the stated tag length.',
+          'C07': ' Creating items and Destroy acknowledged inside batches whose last item fails.',
+          'C09': ' KMIP 2.0 attribute operations (delete by reference / current attribute, modify) among the crash-tested operations; a storage-fault class (COMMIT meets a locked database).',
+          'C10': ' CreateKeyPair among the concurrent requests.',
+          'C11': ' A sample of the twins runs in a server process of its own (module-level state).',
+          'C12': ' Every item of the request header must be read by a decoder that accepts the frame.',
+          'C13': ' Repeated multi-valued values at creation; date values at the ends of Date-Time; ModifyAttribute with another attribute as current.',
+          'C15': ' Current attributes no instance holds, among them empty values.',
+          'C16': " A concurrent class: clients of different versions at the same time, each answer judged by its own request's version.", 'C17': ' The identity handed on is compared exactly (an empty group list is not the absence of group information); further extended key usages.',
+          'C18': ' Directory and file names with pattern characters, blanks and leading dots.',
+          'C19': " Batched requests of KMIPProxy: result i must be the server's answer to item i; request arguments of the cryptographic and creating calls checked on the wire.", 'C20': ' Cryptographic use of Active canary keys with every (mostly unfitting) algorithm, mode and padding.'}
+for _pid, _t in ROUND5.items():
+    CHECKS[_pid]['text'] += _t
+
 def build():
     with open(os.path.join(ROOT, 'properties.jsonl')) as f:
         pids = [json.loads(l)['id'] for l in f if l.strip()]
